@@ -127,7 +127,7 @@ def fp_of(v):
     from fractions import Fraction
 
     if isinstance(v, Points):
-        return FP(False)
+        return getattr(v, "fp", FP(False))  # the input cloud and selections / stackings of inputs are exact; arithmetic on coordinates is not tracked (fp = None)
     if isinstance(v, bool):
         return None
     if isinstance(v, (int, float, Fraction)):
@@ -426,7 +426,17 @@ class Points:
     def __pyvc_snapshot__(self, memo):
         c = Points(self.cols, self.n, self.name)
         c.uid = self.uid
+        for x in ("fp", "selection"):
+            if hasattr(self, x):
+                setattr(c, x, getattr(self, x))
         return c
+
+    def __pyvc_native__(self, native, max_len, NotConcrete):
+        """the numpy array this cloud is in a solver model (counter-model replay)"""
+        n = native(self.nz(), "int")
+        if not 0 <= n <= max_len:
+            raise NotConcrete(f"cloud of {n} points")
+        return np.array([[native(z3.Select(c, z3.IntVal(i)), "real") for c in self.cols] for i in range(n)], dtype=np.float64).reshape(n, 3)
 
     def __pyvc_getattr__(self, eng, name):
         if name == "shape":
@@ -437,7 +447,18 @@ class Points:
             return NativeMethod(_pts_reshape, self, name)
         if name == "T":
             return PointsT(self)
+        if name == "dtype":
+            return np.dtype("float64")
+        if name == "size":
+            return eng.snum(z3.simplify(3 * self.nz()), "int")
+        if name == "copy":
+            return NativeMethod(_np_copy_like, self, name)
+        if name in ("sum", "max", "min"):
+            return NativeMethod(lambda e, r, a, k, _w=name: _pts_row_reduce(e, r, _w, a, k), self, name)
         raise Unsupported(f"attribute {name} of the point cloud")
+
+    def __pyvc_compare__(self, eng, op, a, b):
+        return _pts_compare(eng, op, a, b)
 
     def __pyvc_binop__(self, eng, op, a, b):
         if isinstance(op, ast.MatMult) and isinstance(a, Points) and isinstance(b, PointsT):
@@ -448,8 +469,9 @@ class Points:
             cz = to_z3(other, "real")
             out = Points([npmodels.lam(lambda x, _c=col: cz * z3.Select(_c, x), "real") for col in self.cols], self.n, name=self.name + "_scaled")
             out.frozen = False
+            out.fp = None
             return out
-        raise Unsupported(f"{type(op).__name__} on the point cloud")
+        return _pts_arith(eng, op, a, b)
 
     def __pyvc_getitem__(self, eng, idx):
         if isinstance(idx, tuple) and len(idx) == 2 and _is_full(idx[0]) and isinstance(idx[1], int) and not isinstance(idx[1], bool):
@@ -468,6 +490,16 @@ class Points:
                 return Resh(self, "col")
             if idx[0] is None and _is_full(idx[1]):
                 return Resh(self, "row")
+        if isinstance(idx, tuple) and len(idx) == 2 and _is_full(idx[1]) and isinstance(idx[0], (SArr, slice)):
+            idx = idx[0]  # P[rows, :] = P[rows]
+        if isinstance(idx, tuple) and len(idx) == 1 and isinstance(idx[0], SArr):
+            idx = idx[0]  # P[np.where(mask)]: a 1-tuple of index arrays
+        if isinstance(idx, SArr) and idx.kind == "bool":
+            return select_rows(eng, self, _mask_of(eng, self, idx, "boolean row index on the point cloud"))
+        if isinstance(idx, SArr):
+            return _gather_rows(eng, self, idx)
+        if isinstance(idx, slice):
+            return _slice_rows(eng, self, idx)
         raise Unsupported("index form on the point cloud")
 
     def __pyvc_setitem__(self, eng, idx, val):
@@ -651,6 +683,10 @@ def _np_norm(eng, args, kwargs):
         out = M2(lam2((lambda a, b: RSQRT(sumsq(P, b, a))) if x.swapped else (lambda a, b: RSQRT(sumsq(P, a, b)))), P.n, P.n, "real", name="dis")
         out.fp = FP(True, nonneg=True, ops=6)  # 1 (difference of inputs) -> 3 (square) -> 5 (sum of three) -> sqrt
         return out
+    if isinstance(x, Points):
+        if kwargs.get("ord", args[1] if len(args) > 1 else None) is not None or set(kwargs) - {"axis", "ord"}:
+            raise Unsupported("np.linalg.norm of the point cloud: only the Euclidean norm of the rows")
+        return _pts_row_reduce(eng, x, "norm", [], dict(axis=kwargs.get("axis", args[2] if len(args) > 2 else None)))
     if isinstance(x, (XArr, Points)):
         raise Unsupported("np.linalg.norm of this value")
     return narr.np_norm(eng, args, kwargs)
@@ -659,6 +695,10 @@ def _np_norm(eng, args, kwargs):
 def _np_concatenate(eng, args, kwargs):
     seq = args[0].items if isinstance(args[0], PList) else args[0]
     if isinstance(seq, (list, tuple)) and any(isinstance(x, Points) for x in seq):
+        if kwargs.get("axis", args[1] if len(args) > 1 else 0) != 0 or set(kwargs) - {"axis"} or len(args) > 2:
+            raise Unsupported("np.concatenate on the point cloud: only along axis 0")
+        if not (len(seq) == 2 and isinstance(seq[1], Points) and isinstance(seq[0], PList)):
+            return stack_rows(eng, list(seq), False, "np.concatenate")
         if len(seq) == 2 and isinstance(seq[1], Points) and isinstance(seq[0], PList) and seq[0].items is not None and len(seq[0].items) == 1 and kwargs.get("axis", 0) == 0 and len(args) == 1:
             row = seq[0].items[0]
             if isinstance(row, NArr) and row.shape == (3,):
@@ -671,8 +711,504 @@ def _np_concatenate(eng, args, kwargs):
                 out = Points(cols, z3.simplify(pts.nz() + 1), name="points1")
                 out.frozen = False
                 return out
-        raise Unsupported("np.concatenate form on the point cloud")
+        return stack_rows(eng, list(seq), False, "np.concatenate")
     return narr.np_concatenate(eng, args, kwargs)
+
+
+# ------------------------------------------------------------ rows of a point cloud: tests, selection, stacking
+# Pre-processing of the cloud before the Prim loop (dropping / deduplicating / stacking rows).  Everything here is a statement about
+# ROWS: a test yields one truth value per row (or per coordinate), a selection yields a cloud whose rows are rows of the operand.
+class Bool3(XArr):
+    """(n, 3) boolean array: the result of a coordinate-wise test on a point cloud (three boolean columns)"""
+
+    def __init__(self, cols, n, name="test3"):
+        super().__init__(cols[0], n, "bool", name=name)
+        self.cols = list(cols)
+
+    def cell(self, c, a):
+        return sel1(self.cols[c], a)
+
+    def get(self, i):
+        raise Unsupported("1-D access to an (n, 3) boolean array")
+
+    def row(self, how):
+        """the 1-D boolean array `B.all(axis=1)` / `B.any(axis=1)`"""
+        cols = self.cols
+        f = (lambda a: z3.And(*[sel1(c, a) for c in cols])) if how == "all" else (lambda a: z3.Or(*[sel1(c, a) for c in cols]))
+        return V1(npmodels.lam(f, "bool"), self.n, "bool", name=f"{self.name}_{how}")
+
+    def __pyvc_getattr__(self, eng, name):
+        if name == "shape":
+            return (eng.snum(self.nz(), "int"), 3)
+        if name == "ndim":
+            return 2
+        if name in ("all", "any"):
+            return NativeMethod(lambda e, r, a, k, _h=name: _bool3_reduce(e, r, _h, a, k), self, name)
+        if name == "sum":
+            return NativeMethod(_bool3_sum, self, name)
+        raise Unsupported(f"attribute {name} of an (n, 3) boolean array")
+
+    def __pyvc_getitem__(self, eng, idx):
+        if isinstance(idx, tuple) and len(idx) == 2 and _is_full(idx[0]) and isinstance(idx[1], int) and not isinstance(idx[1], bool) and -3 <= idx[1] < 3:
+            return V1(self.cols[idx[1]], self.n, "bool", name=f"{self.name}_{idx[1] % 3}")
+        raise Unsupported("index form on an (n, 3) boolean array")
+
+    def __pyvc_setitem__(self, eng, idx, val):
+        raise Unsupported("store into an (n, 3) boolean array")
+
+    def __pyvc_unop__(self, eng, op):
+        if isinstance(op, (ast.Invert, ast.Not)) and isinstance(op, ast.Invert):
+            return Bool3([npmodels.lam(lambda a, _c=c: z3.Not(sel1(_c, a)), "bool") for c in self.cols], self.n, name="not_" + self.name)
+        raise Unsupported(f"{type(op).__name__} of an (n, 3) boolean array")
+
+    def __pyvc_binop__(self, eng, op, a, b):
+        if isinstance(op, (ast.BitAnd, ast.BitOr)) and isinstance(a, Bool3) and isinstance(b, Bool3):
+            _shape_oblig(eng, a.n, b.n, "(n, 3) & (n', 3): rows")
+            j = z3.And if isinstance(op, ast.BitAnd) else z3.Or
+            return Bool3([npmodels.lam(lambda x, _p=p, _q=q: j(sel1(_p, x), sel1(_q, x)), "bool") for p, q in zip(a.cols, b.cols)], a.n)
+        raise Unsupported(f"{type(op).__name__} on an (n, 3) boolean array")
+
+
+def _axis_of(args, kwargs, what):
+    if len(args) > 1 or set(kwargs) - {"axis"}:
+        raise Unsupported(f"{what} with these arguments")
+    return kwargs.get("axis", args[0] if args else None)
+
+
+def _forall_rows(n, f):
+    a = z3.Int(fresh_name("ra"))
+    return z3.ForAll([a], z3.Implies(z3.And(0 <= a, a < n), f(a)))
+
+
+def _exists_row(n, f):
+    a = z3.Int(fresh_name("ra"))
+    return z3.Exists([a], z3.And(0 <= a, a < n, f(a)))
+
+
+def _bool3_reduce(eng, recv, how, args, kwargs):
+    axis = _axis_of(args, kwargs, "all / any of an (n, 3) boolean array")
+    used(eng, "B.all(axis=1) / B.any(axis=1) of an (n, 3) boolean array: per row, the conjunction / disjunction of its three entries; without axis: over all entries")
+    if axis in (1, -1):
+        return recv.row(how)
+    if axis is None:
+        rows = recv.row(how)
+        n, arr = recv.nz(), rows.arr
+        return eng.sbool(_forall_rows(n, lambda a: sel1(arr, a)) if how == "all" else _exists_row(n, lambda a: sel1(arr, a)))
+    raise Unsupported("all / any of an (n, 3) boolean array over axis 0")
+
+
+def _bool3_sum(eng, recv, args, kwargs):
+    axis = _axis_of(args, kwargs, "sum of an (n, 3) boolean array")
+    if axis not in (1, -1):
+        raise Unsupported("sum of an (n, 3) boolean array: only over the last axis")
+    used(eng, "B.sum(axis=1) of an (n, 3) boolean array: per row, the number of true entries")
+    cols = recv.cols
+    return V1(npmodels.lam(lambda a: z3.Sum(*[z3.If(sel1(c, a), z3.IntVal(1), z3.IntVal(0)) for c in cols]), "int"), recv.n, "int", name="count3")
+
+
+def _np_all_any(how):
+    def model(eng, args, kwargs):
+        if args and isinstance(args[0], Bool3):
+            return _bool3_reduce(eng, args[0], how, list(args[1:]), kwargs)
+        raise Unsupported("np.all / np.any of this operand")
+
+    return model
+
+
+def _row_operand(eng, other, what):
+    """the other operand of a coordinate-wise operation on an (n, 3) cloud, as `coordinate c of row a` (numpy broadcasting:
+    a scalar, a (3,) vector - the same for every row -, a (1, 3) array, or an (n', 3) cloud with n' == n)"""
+    if isinstance(other, Points):
+        return (lambda c, a: z3.Select(other.cols[c], a)), other.n
+    if isinstance(other, NArr) and other.kind in ("real", "int") and other.shape in ((3,), (1, 3)):
+        zs = [to_z3(x, "real") for x in other.items]
+        return (lambda c, a: zs[c]), None
+    if isinstance(other, PList) and other.items is not None and len(other.items) == 3 and all(kind_of(x) in ("real", "int") for x in other.items):
+        zs = [to_z3(x, "real") for x in other.items]
+        return (lambda c, a: zs[c]), None
+    if not isinstance(other, bool) and kind_of(other) in ("real", "int"):
+        z = to_z3(other, "real")
+        return (lambda c, a: z), None
+    raise Unsupported(f"{what} of the point cloud with {type(other).__name__}")
+
+
+def _derived(P, f, name, exact=False):
+    out = Points([npmodels.lam(lambda a, _c=c: f(_c, a), "real") for c in range(3)], P.n, name=name)
+    out.frozen = False
+    out.fp = FP(False) if exact else None  # arithmetic on coordinates rounds; what a clause about rounding may assume is not tracked for it
+    return out
+
+
+def _pts_arith(eng, op, a, b):
+    me, other, left = (a, b, True) if isinstance(a, Points) else (b, a, False)
+    if not isinstance(op, (ast.Add, ast.Sub, ast.Mult, ast.Div)):
+        if isinstance(op, ast.Pow) and left and not isinstance(other, bool) and other == 2:
+            used(eng, "elementwise arithmetic with numpy broadcasting")
+            return _derived(me, lambda c, x: z3.Select(me.cols[c], x) * z3.Select(me.cols[c], x), "squared")
+        raise Unsupported(f"{type(op).__name__} on the point cloud")
+    g, on = _row_operand(eng, other, type(op).__name__)
+    if on is not None:
+        _shape_oblig(eng, me.n, on, "(n, 3) with (n', 3): rows")
+    used(eng, "elementwise arithmetic with numpy broadcasting")
+    if isinstance(op, ast.Div):
+        if not left:
+            raise Unsupported("division by the point cloud")
+        if not eng.spec_mode:
+            eng.prove(eng.site("division-by-zero"), z3.And(*[_forall_rows(me.nz(), lambda x, _c=c: g(_c, x) != 0) for c in range(3)]), "safety", "coordinate-wise division")
+    mine = lambda c, x: z3.Select(me.cols[c], x)
+    cx, cy = (mine, g) if left else (g, mine)
+    return _derived(me, lambda c, x: npmodels._z3op(op, cx(c, x), cy(c, x)), "expr")
+
+
+def _pts_compare(eng, op, a, b):
+    me, other, left = (a, b, True) if isinstance(a, Points) else (b, a, False)
+    if type(op) not in npmodels._CMP:
+        return NotImplemented
+    g, on = _row_operand(eng, other, "comparison")
+    if on is not None:
+        _shape_oblig(eng, me.n, on, "(n, 3) with (n', 3): rows")
+    used(eng, "coordinate-wise comparison of an (n, 3) cloud with a scalar / a (3,) vector / an (n, 3) cloud: an (n, 3) boolean array")
+    f = npmodels._CMP[type(op)]
+    mine = lambda c, x: z3.Select(me.cols[c], x)
+    cx, cy = (mine, g) if left else (g, mine)
+    return Bool3([npmodels.lam(lambda x, _c=c: f(cx(_c, x), cy(_c, x)), "bool") for c in range(3)], me.n, name="cmp3")
+
+
+def _tolerances(args, kwargs):
+    from fractions import Fraction
+
+    if set(kwargs) - {"rtol", "atol", "equal_nan"}:
+        raise Unsupported("np.isclose keyword")
+    rtol = kwargs.get("rtol", args[2] if len(args) > 2 else Fraction(1, 100000))
+    atol = kwargs.get("atol", args[3] if len(args) > 3 else Fraction(1, 100000000))
+    if kind_of(rtol) not in ("real", "int") or kind_of(atol) not in ("real", "int") or isinstance(rtol, bool) or isinstance(atol, bool):
+        raise Unsupported("np.isclose tolerances that are not scalars")
+    return to_z3(rtol, "real"), to_z3(atol, "real")
+
+
+def _zabs(x):
+    return z3.If(x >= 0, x, -x)
+
+
+def _np_isclose(eng, args, kwargs):
+    """np.isclose(a, b, rtol=1e-5, atol=1e-8) with a point cloud among the operands: |a - b| <= atol + rtol * |b| per coordinate
+    (the SECOND operand carries the relative tolerance - the test is not symmetric)"""
+    if len(args) >= 2 and any(isinstance(x, Points) for x in args[:2]):
+        if getattr(eng, "exact_tolerances", False):
+            raise Unsupported("np.isclose on a point cloud under exact_tolerances")
+        a, b = args[0], args[1]
+        me = a if isinstance(a, Points) else b
+        rtol, atol = _tolerances(args, kwargs)
+        ga = (lambda c, x: z3.Select(a.cols[c], x)) if isinstance(a, Points) else _row_operand(eng, a, "np.isclose")[0]
+        gb = (lambda c, x: z3.Select(b.cols[c], x)) if isinstance(b, Points) else _row_operand(eng, b, "np.isclose")[0]
+        if isinstance(a, Points) and isinstance(b, Points):
+            _shape_oblig(eng, a.n, b.n, "np.isclose: rows")
+        used(eng, "np.isclose(a, b, rtol, atol) on an (n, 3) cloud (against a scalar / a (3,) vector / a cloud): per coordinate |a - b| <= atol + rtol * |b| over the reals "
+                  "(defaults rtol = 1e-5, atol = 1e-8; the relative part scales with the SECOND operand)")
+        return Bool3([npmodels.lam(lambda x, _c=c: _zabs(ga(_c, x) - gb(_c, x)) <= atol + rtol * _zabs(gb(_c, x)), "bool") for c in range(3)], me.n, name="isclose")
+    return narr.np_isclose(eng, args, kwargs)
+
+
+def _np_allclose(eng, args, kwargs):
+    if len(args) >= 2 and any(isinstance(x, Points) for x in args[:2]):
+        return _bool3_reduce(eng, _np_isclose(eng, args, kwargs), "all", [], {})
+    return narr.np_allclose(eng, args, kwargs)
+
+
+def _np_abs(eng, args, kwargs):
+    if len(args) == 1 and not kwargs and isinstance(args[0], Points):
+        P = args[0]
+        used(eng, "np.abs of an (n, 3) cloud: coordinate-wise absolute value")
+        return _derived(P, lambda c, x: _zabs(z3.Select(P.cols[c], x)), "abs", exact=True)
+    return narr.np_abs(eng, args, kwargs)
+
+
+def _pts_row_reduce(eng, recv, what, args, kwargs):
+    axis = _axis_of(args, kwargs, f"{what} of the point cloud")
+    if axis not in (1, -1):
+        raise Unsupported(f"{what} of the point cloud: only over the last axis")
+    cs = recv.cols
+    if what == "sum":
+        used(eng, "P.sum(axis=1) of an (n, 3) cloud: per row, the sum of the three coordinates")
+        f = lambda a: z3.Sum(*[z3.Select(c, a) for c in cs])
+    elif what == "norm":
+        used(eng, "np.linalg.norm(P, axis=1) of an (n, 3) cloud: per row rsqrt(x^2 + y^2 + z^2) (rsqrt = real square root)")
+        f = lambda a: RSQRT(z3.Sum(*[z3.Select(c, a) * z3.Select(c, a) for c in cs]))
+    elif what in ("max", "min"):
+        used(eng, "P.max(axis=1) / P.min(axis=1) of an (n, 3) cloud: per row, the largest / smallest coordinate")
+        pick = (lambda x, y: z3.If(x >= y, x, y)) if what == "max" else (lambda x, y: z3.If(x <= y, x, y))
+        f = lambda a: pick(pick(z3.Select(cs[0], a), z3.Select(cs[1], a)), z3.Select(cs[2], a))
+    else:
+        raise Unsupported(what)
+    return V1(npmodels.lam(f, "real"), recv.n, "real", name=what + "_rows")
+
+
+# ---- selections.  A selection of rows is described by the ghost symbols of npmodels.filter_axioms: N kept rows, K(m) = the input row
+# shown in row m (strictly increasing: the order is kept), R(i) = the row that shows input row i.
+def _mask_of(eng, P, mask, what):
+    if isinstance(mask, Bool3) or not (isinstance(mask, SArr) and mask.kind == "bool" and not isinstance(mask, (M2, ColVec))):
+        raise Unsupported(f"{what}: the mask is not a 1-D boolean array")
+    g = z3.simplify(P.nz() == mask.nz())
+    if z3.is_false(g):
+        raise ProgExc(IndexError, "boolean index did not match indexed array along axis 0")
+    if not z3.is_true(g) and not eng.spec_mode:
+        eng.prove(eng.site("mask-as-long-as-the-cloud"), g, "shape", what)
+    arr = mask.arr
+    return lambda t: sel1(arr, t)
+
+
+def _assume_selection(eng, ax):
+    """a quantified axiom of a row selection: assumed, and remembered so that a contract may DROP it from the path condition once the facts about the
+    selected cloud are established (weakening the context is always sound; the quantified axioms only slow the later obligations down)"""
+    eng.assume(ax)
+    eng.ghost.setdefault("c17-selection-axioms", []).append(ax)
+
+
+def select_rows(eng, P, holds, name="selected"):
+    """the rows a of P with holds(a), in their order: P[mask] (numpy boolean indexing along axis 0 copies the selected rows in position order)"""
+    nz = P.nz()
+    probe = z3.Int("sel_probe")
+    key = ("c17-rowsel", z3.simplify(holds(probe)).get_id(), z3.simplify(nz).get_id())
+    got = eng.ghost.get(key)
+    if got is None:
+        used(eng, "P[mask] / P[~mask] / np.delete(P, mask, axis=0) on an (n, 3) cloud with a 1-D boolean mask: the fresh cloud of exactly the selected rows, in their order "
+                  "(ghost symbols of the order-preserving selection: N kept rows, K(m) the row shown in row m, R(i) the row that shows row i; npmodels.filter_axioms)")
+        tag = fresh_name("rows")
+        N, K, R = z3.Int(tag + "_N"), z3.Function(tag + "_K", I, I), z3.Function(tag + "_R", I, I)
+        i, m, m2 = z3.Int(tag + "_i"), z3.Int(tag + "_m"), z3.Int(tag + "_m2")
+        axs = npmodels.filter_axioms(nz, holds, N, K, R, i, m, m2)
+        eng.assume(axs[0])  # 0 <= N <= n
+        for ax in axs[1:]:
+            _assume_selection(eng, ax)
+        got = eng.ghost[key] = (N, K, R)
+        eng.ghost.setdefault("filters", []).append(dict(N=N, K=K, R=R, n=nz, cond=holds, out=None))
+    N, K, R = got
+    out = Points([npmodels.lam(lambda x, _c=c: z3.Select(_c, K(x)), "real") for c in P.cols], N, name=name)
+    out.frozen = False
+    out.fp = fp_of(P)
+    out.selection = dict(src=P, N=N, K=K, R=R, holds=holds)
+    return out
+
+
+def _gather_rows(eng, P, idx):
+    sel = getattr(idx, "positions_of", None)
+    if sel is not None and _same(sel[1], P.n):
+        return select_rows(eng, P, sel[0])  # P[np.where(mask)[0]] = P[mask]
+    if not (isinstance(idx, SArr) and idx.kind == "int" and not isinstance(idx, (M2, ColVec))):
+        raise Unsupported("index array on the point cloud")
+    used(eng, "P[idx] on an (n, 3) cloud with a 1-D integer index array: the fresh cloud whose row m is row idx[m] (negative positions count from the end)")
+    n, arr, j = P.nz(), idx.arr, z3.Int(fresh_name("gi"))
+    if not eng.spec_mode:
+        eng.prove(eng.site("gather-in-bounds"), z3.ForAll([j], z3.Implies(z3.And(j >= 0, j < idx.nz()), z3.And(sel1(arr, j) >= -n, sel1(arr, j) < n))), "safety", "row index array")
+    pos = lambda x: z3.If(sel1(arr, x) < 0, sel1(arr, x) + n, sel1(arr, x))
+    out = Points([npmodels.lam(lambda x, _c=c: z3.Select(_c, pos(x)), "real") for c in P.cols], idx.n, name="gathered")
+    out.frozen = False
+    out.fp = fp_of(P)
+    return out
+
+
+def _slice_rows(eng, P, sl):
+    if sl.step not in (None, 1):
+        raise Unsupported("strided slice of the point cloud")
+    used(eng, "P[a:b] on an (n, 3) cloud: the rows a .. b-1 (bounds clipped as Python slices are)")
+    n = P.nz()
+
+    def clamp(v, default):
+        if v is None:
+            return default
+        vz = to_z3(v, "int")
+        vz = z3.If(vz < 0, vz + n, vz)
+        return z3.If(vz < 0, z3.IntVal(0), z3.If(vz > n, n, vz))
+
+    lo, hi = z3.simplify(clamp(sl.start, z3.IntVal(0))), z3.simplify(clamp(sl.stop, n))
+    ln = z3.simplify(z3.If(hi >= lo, hi - lo, z3.IntVal(0)))
+    out = Points([npmodels.lam(lambda x, _c=c: z3.Select(_c, x + lo), "real") for c in P.cols], ln, name=P.name + "_rows")
+    out.frozen = P.frozen  # a view: a store reaches the operand
+    out.fp = fp_of(P)
+    return out
+
+
+class Positions(V1):
+    """np.flatnonzero(mask) / np.where(mask)[0]: the positions at which a 1-D boolean array is true, ascending"""
+
+
+def _positions(eng, mask):
+    if isinstance(mask, Bool3) or not (isinstance(mask, SArr) and mask.kind == "bool" and not isinstance(mask, (M2, ColVec))):
+        raise Unsupported("positions of the true entries: not a 1-D boolean array")
+    arr, nz = mask.arr, mask.nz()
+    holds = lambda t: sel1(arr, t)
+    used(eng, "np.flatnonzero(mask) / np.where(mask)[0] of a 1-D boolean array: the positions of its true entries in ascending order (order-preserving selection, npmodels.filter_axioms)")
+    tag = fresh_name("pos")
+    N, K, R = z3.Int(tag + "_N"), z3.Function(tag + "_K", I, I), z3.Function(tag + "_R", I, I)
+    i, m, m2 = z3.Int(tag + "_i"), z3.Int(tag + "_m"), z3.Int(tag + "_m2")
+    axs = npmodels.filter_axioms(nz, holds, N, K, R, i, m, m2)
+    eng.assume(axs[0])
+    for ax in axs[1:]:
+        _assume_selection(eng, ax)
+    out = Positions(npmodels.lam(lambda x: K(x), "int"), N, "int", name="positions")
+    out.positions_of = (holds, mask.n)
+    return out
+
+
+def _np_flatnonzero(eng, args, kwargs):
+    if len(args) == 1 and not kwargs and isinstance(args[0], SArr) and args[0].kind == "bool":
+        return _positions(eng, args[0])
+    raise Unsupported("np.flatnonzero of this operand")
+
+
+def _np_delete(eng, args, kwargs):
+    if args and isinstance(args[0], Points):
+        P = args[0]
+        obj = kwargs.get("obj", args[1] if len(args) > 1 else None)
+        axis = kwargs.get("axis", args[2] if len(args) > 2 else None)
+        if axis != 0 or set(kwargs) - {"obj", "axis"} or obj is None:
+            raise Unsupported("np.delete on the point cloud: only whole rows (axis=0)")
+        if isinstance(obj, tuple) and len(obj) == 1:
+            obj = obj[0]  # np.where(mask) is a 1-tuple
+        sel = getattr(obj, "positions_of", None)
+        if sel is not None and _same(sel[1], P.n):
+            h = sel[0]
+            return select_rows(eng, P, lambda t: z3.Not(h(t)), name="remaining")
+        if isinstance(obj, SArr) and obj.kind == "bool":
+            h = _mask_of(eng, P, obj, "np.delete with a boolean mask")
+            return select_rows(eng, P, lambda t: z3.Not(h(t)), name="remaining")
+        if (isinstance(obj, int) and not isinstance(obj, bool)) or (isinstance(obj, Sym) and obj.kind == "int"):
+            iz = models.norm_index(eng, obj, P.n, "np.delete row")
+            used(eng, "np.delete(P, i, axis=0) on an (n, 3) cloud: the fresh cloud of the n - 1 other rows, in their order")
+            out = Points([npmodels.lam(lambda x, _c=c: z3.Select(_c, z3.If(x < iz, x, x + 1)), "real") for c in P.cols], z3.simplify(P.nz() - 1), name="remaining")
+            out.frozen = False
+            out.fp = fp_of(P)
+            return out
+        if isinstance(obj, SArr) and obj.kind == "int":
+            # rows listed in an arbitrary index array: the rows that are NOT listed, in their order
+            arr, ln, n = obj.arr, obj.nz(), P.nz()
+            j = z3.Int(fresh_name("dj"))
+            if not eng.spec_mode:
+                eng.prove(eng.site("delete-in-bounds"), z3.ForAll([j], z3.Implies(z3.And(j >= 0, j < ln), z3.And(sel1(arr, j) >= -n, sel1(arr, j) < n))), "safety", "np.delete row index array")
+            listed = lambda t: z3.Exists([j], z3.And(j >= 0, j < ln, z3.Or(sel1(arr, j) == t, sel1(arr, j) + n == t)))
+            return select_rows(eng, P, lambda t: z3.Not(listed(t)), name="remaining")
+        raise Unsupported("np.delete on the point cloud with this index")
+    raise Unsupported("np.delete on symbolic data (modelled: rows of the point cloud)")
+
+
+def _lex_less(P, a, b):
+    x, y, z_ = [(z3.Select(c, a), z3.Select(c, b)) for c in P.cols]
+    return z3.Or(x[0] < x[1], z3.And(x[0] == x[1], z3.Or(y[0] < y[1], z3.And(y[0] == y[1], z_[0] < z_[1]))))
+
+
+def _row_eq(P, a, Q, b):
+    return z3.And(*[z3.Select(p, a) == z3.Select(q, b) for p, q in zip(P.cols, Q.cols)])
+
+
+def _np_unique(eng, args, kwargs):
+    if args and isinstance(args[0], Points):
+        P = args[0]
+        if len(args) != 1 or kwargs.get("axis") != 0 or set(kwargs) - {"axis"}:
+            raise Unsupported("np.unique on the point cloud: only np.unique(P, axis=0) without further results")
+        used(eng, "np.unique(P, axis=0) of an (n, 3) cloud: the fresh cloud of the DISTINCT rows in ascending lexicographic order (every row of the result is a row of P, every "
+                  "row of P occurs exactly once; pairwise distinct rows: nothing is dropped)")
+        n = P.nz()
+        tag = fresh_name("uniq")
+        N, K, R = z3.Int(tag + "_N"), z3.Function(tag + "_K", I, I), z3.Function(tag + "_R", I, I)
+        m, m2, i, i2 = z3.Int(tag + "_m"), z3.Int(tag + "_m2"), z3.Int(tag + "_i"), z3.Int(tag + "_i2")
+        out = Points([npmodels.lam(lambda x, _c=c: z3.Select(_c, K(x)), "real") for c in P.cols], N, name="unique")
+        out.frozen = False
+        out.fp = fp_of(P)
+        rng_m = lambda t: z3.And(t >= 0, t < N)
+        rng_i = lambda t: z3.And(t >= 0, t < n)
+        eng.assume(z3.And(N >= 0, N <= n, z3.Implies(n > 0, N > 0)))
+        _assume_selection(eng, z3.ForAll([m], z3.Implies(rng_m(m), z3.And(rng_i(K(m)), R(K(m)) == m)), patterns=[K(m)]))
+        _assume_selection(eng, z3.ForAll([i], z3.Implies(rng_i(i), z3.And(rng_m(R(i)), _row_eq(P, i, P, K(R(i))))), patterns=[R(i)]))
+        _assume_selection(eng, z3.ForAll([m, m2], z3.Implies(z3.And(rng_m(m), rng_m(m2), m < m2), _lex_less(P, K(m), K(m2))), patterns=[z3.MultiPattern(K(m), K(m2))]))
+        _assume_selection(eng, z3.Implies(z3.ForAll([i, i2], z3.Implies(z3.And(rng_i(i), rng_i(i2), i != i2), z3.Not(_row_eq(P, i, P, i2)))), N == n))
+        out.selection = dict(src=P, N=N, K=K, R=R, holds=None)
+        return out
+    return npmodels._np_unique(eng, args, kwargs)
+
+
+# ---- stacking rows
+def _row_parts(eng, seq, promote_1d):
+    """the operands of a row-wise concatenation as (number of rows, coordinate getter (c, row) -> real term, exact?)"""
+    parts = []
+    for x in seq:
+        if isinstance(x, Points):
+            parts.append((x.nz(), (lambda c, a, _p=x: z3.Select(_p.cols[c], a)), fp_of(x)))
+            continue
+        if isinstance(x, PList) and x.items is not None:
+            its = x.items
+            if its and all(isinstance(r, NArr) and r.shape == (3,) for r in its):
+                rows = [[to_z3(v, "real") for v in r.items] for r in its]
+            elif its and all(isinstance(r, PList) and r.items is not None and len(r.items) == 3 for r in its):
+                rows = [[to_z3(v, "real") for v in r.items] for r in its]
+            elif promote_1d and len(its) == 3 and all(kind_of(v) in ("real", "int") for v in its):
+                rows = [[to_z3(v, "real") for v in its]]
+            else:
+                raise Unsupported("row-wise concatenation: a list operand that is not a list of (3,) rows")
+        elif isinstance(x, NArr) and x.kind in ("real", "int") and len(x.shape) == 2 and x.shape[1] == 3:
+            rows = [[to_z3(v, "real") for v in x.items[3 * r:3 * r + 3]] for r in range(x.shape[0])]
+        elif isinstance(x, NArr) and x.kind in ("real", "int") and x.shape == (3,) and promote_1d:
+            rows = [[to_z3(v, "real") for v in x.items]]
+        else:
+            raise Unsupported(f"row-wise concatenation of the point cloud with {type(x).__name__}" + (f" of shape {x.shape}" if isinstance(x, NArr) else ""))
+
+        def get(c, a, _rows=rows):
+            t = _rows[-1][c]
+            for r in range(len(_rows) - 2, -1, -1):
+                t = z3.If(a == r, _rows[r][c], t)
+            return t
+
+        parts.append((z3.IntVal(len(rows)), get, FP(False)))
+    return parts
+
+
+def stack_rows(eng, seq, promote_1d, what):
+    parts = _row_parts(eng, seq, promote_1d)
+    used(eng, f"{what} of (k, 3) arrays / lists of (3,) rows and (n, 3) clouds along axis 0: the fresh array holding the rows of the operands one after the other")
+    total, offs = z3.IntVal(0), []
+    for n, _, _ in parts:
+        offs.append(total)
+        total = z3.simplify(total + n)
+
+    def cell(c, a):
+        t = parts[-1][1](c, a - offs[-1])
+        for (n, get, _), off in reversed(list(zip(parts[:-1], offs[:-1]))):
+            t = z3.If(a < z3.simplify(off + n), get(c, a - off), t)
+        return t
+
+    out = Points([npmodels.lam(lambda a, _c=c: cell(_c, a), "real") for c in range(3)], total, name="points1")
+    out.frozen = False
+    out.fp = FP(False) if all(f is not None and not f.inexact for _, _, f in parts) else None
+    return out
+
+
+def _seq_items(x):
+    if isinstance(x, PList) and x.items is not None:
+        return list(x.items)
+    if isinstance(x, (list, tuple)):
+        return list(x)
+    return None
+
+
+def _np_vstack(eng, args, kwargs):
+    seq = _seq_items(args[0]) if args else None
+    if seq is not None and any(isinstance(x, Points) for x in seq):
+        if len(args) != 1 or kwargs:
+            raise Unsupported("np.vstack arguments")
+        return stack_rows(eng, seq, True, "np.vstack")
+    raise Unsupported("np.vstack on this operand (modelled: rows stacked on a point cloud)")
+
+
+def _np_copy_like(eng, recv, args, kwargs):
+    out = Points(recv.cols, recv.n, name=recv.name + "_cp")
+    out.frozen = False
+    out.fp = fp_of(recv)
+    return out
+
+
+def _b_len(eng, args, kwargs):
+    if len(args) == 1 and isinstance(args[0], (Points, Bool3)):
+        return eng.snum(args[0].nz(), "int")
+    raise Unsupported("len of this value")
 
 
 # ------------------------------------------------------------ constructors (symbolic shapes)
@@ -818,6 +1354,8 @@ def _np_where(eng, args, kwargs):
         x, y = ops
         g = [(lambda a, b, _v=v: to_z3(Sym(sel2(_v.arr, a, b), _v.kind), k)) if isinstance(v, M2) else (lambda a, b, _z=to_z3(v, k): _z) for v in (x, y)]
         return M2(lam2(lambda a, b: z3.If(sel2(carr, a, b), g[0](a, b), g[1](a, b))), c.n, c.m, k, name="where")
+    if len(args) == 1 and not kwargs and isinstance(args[0], SArr) and args[0].kind == "bool" and not isinstance(args[0], (M2, ColVec, Bool3)):
+        return (_positions(eng, args[0]),)  # np.where(mask) of a 1-D mask: the 1-tuple holding the positions of its true entries
     return npmodels._np_where(eng, args, kwargs)
 
 
@@ -948,6 +1486,48 @@ def _dispatch(orig):
     return f
 
 
+def _dispatch_compare(orig):
+    def f(eng, op, a, b):
+        for x in (a, b):
+            h = getattr(x, "__pyvc_compare__", None)
+            if h is not None:
+                r = h(eng, op, a, b)
+                if r is not NotImplemented:
+                    return r
+        return orig(eng, op, a, b)
+
+    f._c17 = True
+    return f
+
+
+def _dispatch_unop(orig):
+    def f(eng, op, a):
+        h = getattr(a, "__pyvc_unop__", None)
+        if h is not None:
+            return h(eng, op)
+        return orig(eng, op, a)
+
+    f._c17 = True
+    return f
+
+
+def _guard(fn, applies, mine):
+    cur = models.EXTRA_MODELS.get(fn)
+    if getattr(cur, "_c17_guard", None) is fn:
+        return
+
+    def f(eng, args, kwargs):
+        if applies(args, kwargs):
+            return mine(eng, args, kwargs)
+        m = cur if cur is not None else (models.BUILTIN_MODELS.get(fn) or npmodels.lookup_model(fn))
+        if m is None:
+            raise Unsupported(f"call to unmodelled {getattr(fn, '__module__', '')}.{getattr(fn, '__name__', fn)}")
+        return m(eng, args, kwargs)
+
+    f._c17_guard = fn
+    models.EXTRA_MODELS[fn] = f
+
+
 def install():
     import pandas as pd
 
@@ -956,7 +1536,21 @@ def install():
         ma.array: _ma_array, ma.masked_array: _ma_array, np.unravel_index: _np_unravel_index, pd.DataFrame.from_dict: _df_from_dict, np.where: _np_where,
         np.einsum: _np_einsum, np.sqrt: _np_sqrt, np.maximum: _np_maximum,
     })
+    # functions that other properties model as well (process-wide table): ours serve only calls with a point cloud among the operands,
+    # every other call goes to the model that was registered before (or to the stock one)
+    cloud = lambda args, kwargs: any(isinstance(x, (Points, Bool3)) for x in args[:2])
+    stacked = lambda args, kwargs: bool(args) and _seq_items(args[0]) is not None and any(isinstance(x, Points) for x in _seq_items(args[0]))
+    mask1 = lambda args, kwargs: len(args) == 1 and isinstance(args[0], SArr) and args[0].kind == "bool" and not isinstance(args[0], (M2, ColVec, Bool3))
+    for fn, applies, mine in ((np.isclose, cloud, _np_isclose), (np.allclose, cloud, _np_allclose), (np.all, cloud, _np_all_any("all")), (np.any, cloud, _np_all_any("any")),
+                              (np.abs, cloud, _np_abs), (np.absolute, cloud, _np_abs), (np.delete, cloud, _np_delete), (np.unique, cloud, _np_unique),
+                              (np.vstack, stacked, _np_vstack), (np.flatnonzero, mask1, _np_flatnonzero), (len, cloud, _b_len)):
+        _guard(fn, applies, mine)
     # binary operators on the extension arrays: the engine sends every SArr operand to models.array_binop; values that
     # carry a __pyvc_binop__ method are served by it, everything else goes to the stock implementation unchanged
     if not getattr(models.array_binop, "_c17", False):
         models.array_binop = _dispatch(models.array_binop)
+    # the same for comparisons and unary operators that reach the array dispatch (an NArr / SArr operand next to an extension value)
+    if not getattr(models.array_compare, "_c17", False):
+        models.array_compare = _dispatch_compare(models.array_compare)
+    if not getattr(models.array_unop, "_c17", False):
+        models.array_unop = _dispatch_unop(models.array_unop)
